@@ -39,9 +39,47 @@ type mapCase struct {
 	Mapper string `json:"mapper"`
 	Dir    string `json:"dir"` // "bus" = address is a bus address, "pak" = FX Pak Pro address
 	Addr   uint32 `json:"addr"`
+	// history probes: the translation of Addr is repeated right after another call -- of the same function
+	// with PrevAddr (HasPrev), or of mapper PrevMapper's function with Addr
+	HasPrev    bool   `json:"has_prev,omitempty"`
+	PrevAddr   uint32 `json:"prev_addr,omitempty"`
+	PrevMapper string `json:"prev_mapper,omitempty"`
 }
 
 type mapFinding struct{ sig, what string }
+
+// mapHistoryProbe re-executes a history probe case: alone, then after the recorded preceding call.
+func mapHistoryProbe(c mapCase) (string, error) {
+	m := mapperByName(c.Mapper)
+	if m == nil {
+		return "", fmt.Errorf("unknown mapper %q", c.Mapper)
+	}
+	pick := func(mm *mapper) func(uint32) (uint32, error) {
+		if c.Dir == "bus" {
+			return mm.BusToPak
+		}
+		return mm.PakToBus
+	}
+	f := pick(m)
+	r0, e0, _ := callMap(f, c.Addr)
+	r0, e0, _ = callMap(f, c.Addr)
+	prev := fmt.Sprintf("translating $%06x", c.PrevAddr)
+	if c.PrevMapper != "" {
+		pm := mapperByName(c.PrevMapper)
+		if pm == nil {
+			return "", fmt.Errorf("unknown mapper %q", c.PrevMapper)
+		}
+		callMap(pick(pm), c.Addr)
+		prev = c.PrevMapper + " translating the same address"
+	} else {
+		callMap(f, c.PrevAddr)
+	}
+	r1, e1, p1 := callMap(f, c.Addr)
+	if p1 || r1 != r0 || (e1 == nil) != (e0 == nil) {
+		return fmt.Sprintf("%s %s->: $%06x gives ($%06x, %v), right after %s ($%06x, %v)", c.Mapper, c.Dir, c.Addr, r0, e0, prev, r1, e1), fmt.Errorf("unexplained:depends-on-previous-call")
+	}
+	return "the translation does not depend on the preceding call", nil
+}
 
 func mapperByName(n string) *mapper {
 	for i := range mappers {
@@ -57,6 +95,9 @@ func replayMapCase(f func(m *mapper, dir string, a uint32) []mapFinding) func(js
 		var c mapCase
 		if err := json.Unmarshal(raw, &c); err != nil {
 			return "", err
+		}
+		if c.HasPrev || c.PrevMapper != "" {
+			return mapHistoryProbe(c)
 		}
 		m := mapperByName(c.Mapper)
 		if m == nil {
@@ -150,14 +191,14 @@ func runC04(r *report.Run) {
 				if dir == "bus" {
 					_, err, pn := callMap(m.BusToPak, a)
 					if pn {
-						r.Violation("unexplained:panic:"+m.Name, fmt.Sprintf("%s.BusAddressToPak($%06x) panics", m.Name, a), mapCase{m.Name, dir, a})
+						r.Violation("unexplained:panic:"+m.Name, fmt.Sprintf("%s.BusAddressToPak($%06x) panics", m.Name, a), mapCase{Mapper: m.Name, Dir: dir, Addr: a})
 						continue
 					}
 					ok = err == nil
 				} else {
 					_, err, pn := callMap(m.PakToBus, a)
 					if pn {
-						r.Violation("unexplained:panic:"+m.Name, fmt.Sprintf("%s.PakAddressToBus($%06x) panics", m.Name, a), mapCase{m.Name, dir, a})
+						r.Violation("unexplained:panic:"+m.Name, fmt.Sprintf("%s.PakAddressToBus($%06x) panics", m.Name, a), mapCase{Mapper: m.Name, Dir: dir, Addr: a})
 						continue
 					}
 					ok = err == nil
@@ -167,7 +208,7 @@ func runC04(r *report.Run) {
 				}
 				mp++
 				for _, f := range c04CheckAddr(m, dir, a) {
-					r.Violation(f.sig, f.what, mapCase{m.Name, dir, a})
+					r.Violation(f.sig, f.what, mapCase{Mapper: m.Name, Dir: dir, Addr: a})
 				}
 			}
 			atomic.AddInt64(&evals, ev)
@@ -199,7 +240,7 @@ func runC04(r *report.Run) {
 					r1, e1, p1 := callMap(f, a)
 					n += 2
 					if p1 || r1 != r0 || (e1 == nil) != (e0 == nil) {
-						r.Violation("unexplained:depends-on-previous-call:"+m.Name, fmt.Sprintf("%s %s->: translating $%06x gives ($%06x, %v), but right after translating $%06x it gives ($%06x, %v)", m.Name, dir, a, r0, e0, a^(1<<k), r1, e1), mapCase{m.Name, dir, a})
+						r.Violation("unexplained:depends-on-previous-call:"+m.Name, fmt.Sprintf("%s %s->: translating $%06x gives ($%06x, %v), but right after translating $%06x it gives ($%06x, %v)", m.Name, dir, a, r0, e0, a^(1<<k), r1, e1), mapCase{Mapper: m.Name, Dir: dir, Addr: a, HasPrev: true, PrevAddr: a ^ (1 << k)})
 						break
 					}
 				}
@@ -213,9 +254,9 @@ func runC04(r *report.Run) {
 	r.Set("distinct_nontrivial", mapped)
 	r.Set("rule", "all 2^24 bus addresses (clause i) and all 2^24 FX Pak Pro addresses (clause ii) for each of the 4 mappers; a case is non-trivial when the address is translated (not the unmapped-error path), and then both directions are really composed on the implementation; history probe: for every address and every bit 8..23, the translation of a right after the translation of a with that bit flipped must equal the translation of a")
 	r.Set("exhaustive", true)
-	r.Sample(mapCase{"lorom", "bus", 0xFE0000})
-	r.Sample(mapCase{"lorom", "pak", 0xE70000})
-	r.Sample(mapCase{"exhirom", "pak", 0xBF0000})
+	r.Sample(mapCase{Mapper: "lorom", Dir: "bus", Addr: 0xFE0000})
+	r.Sample(mapCase{Mapper: "lorom", Dir: "pak", Addr: 0xE70000})
+	r.Sample(mapCase{Mapper: "exhirom", Dir: "pak", Addr: 0xBF0000})
 	r.Assume("class windows: ROM < $E00000, SRAM $E00000-$EFFFFF, WRAM $F50000-$FFFFFF (the $F7-$FF mirror counted as WRAM as the mapper comments state)")
 }
 
@@ -324,7 +365,7 @@ func runC05(r *report.Run) {
 				ev++
 				fs := c05CheckAddr(m, dir, a)
 				for _, f := range fs {
-					r.Violation(f.sig, f.what, mapCase{m.Name, dir, a})
+					r.Violation(f.sig, f.what, mapCase{Mapper: m.Name, Dir: dir, Addr: a})
 				}
 				if dir == "bus" {
 					if cls, _ := m.Table.Lookup(a); cls != refmap.Unmapped {
@@ -339,14 +380,57 @@ func runC05(r *report.Run) {
 		})
 		_ = regionsHit
 	}
+	// the four mappers are independent of one another: what mapper B answers for an address does not depend
+	// on another mapper having just been asked about the same (or the neighbouring) address
+	var cross int64
+	par.For(512, func(_, chunk int) {
+		bus := chunk < 256
+		base := uint32(chunk&255) << 16
+		var n int64
+		fn := func(m *mapper) func(uint32) (uint32, error) {
+			if bus {
+				return m.BusToPak
+			}
+			return m.PakToBus
+		}
+		for o := uint32(0); o < 0x10000; o += 1 {
+			a := base | o
+			for bi := range mappers {
+				fb := fn(&mappers[bi])
+				r0, e0, p0 := callMap(fb, a)
+				if p0 {
+					continue
+				}
+				for ai := range mappers {
+					if ai == bi {
+						continue
+					}
+					callMap(fn(&mappers[ai]), a)
+					r1, e1, p1 := callMap(fb, a)
+					n += 2
+					if p1 || r1 != r0 || (e1 == nil) != (e0 == nil) {
+						dir := "bus"
+						if !bus {
+							dir = "pak"
+						}
+						r.Violation("unexplained:depends-on-another-mapper:"+mappers[bi].Name, fmt.Sprintf("%s %s->: $%06x translates to ($%06x, %v), but right after %s was asked about the same address to ($%06x, %v)", mappers[bi].Name, dir, a, r0, e0, mappers[ai].Name, r1, e1), mapCase{Mapper: mappers[bi].Name, Dir: dir, Addr: a, PrevMapper: mappers[ai].Name})
+						break
+					}
+				}
+			}
+		}
+		atomic.AddInt64(&cross, n)
+	})
+	evals += cross
+	r.Set("cross_mapper_probe_calls", cross)
 	r.Set("evaluations", evals)
 	r.Set("distinct_nontrivial", mapped)
-	r.Set("rule", "all 2^24 bus addresses and all 2^24 pak addresses x 4 mappers, five facets each (error shape/class windows, pak reject window, console-owned map, 8 KiB page uniformity and order, region table); non-trivial = address inside a mapped region of the reference table (bus) or outside the reject window (pak)")
+	r.Set("rule", "cross-mapper probe: every address is translated by each mapper again right after each other mapper was asked about it (same answer required); all 2^24 bus addresses and all 2^24 pak addresses x 4 mappers, five facets each (error shape/class windows, pak reject window, console-owned map, 8 KiB page uniformity and order, region table); non-trivial = address inside a mapped region of the reference table (bus) or outside the reject window (pak)")
 	r.Set("exhaustive", true)
 	r.Set("facets", []string{"a:error-shape+class-window", "b:pak-reject-window", "c:console-owned-map", "d:8KiB-page-uniform+ordered", "e:region-table"})
-	r.Sample(mapCase{"lorom", "bus", 0x7E1234})
-	r.Sample(mapCase{"sa1rom", "bus", 0x446000})
-	r.Sample(mapCase{"hirom", "pak", 0xF4FFFF})
+	r.Sample(mapCase{Mapper: "lorom", Dir: "bus", Addr: 0x7E1234})
+	r.Sample(mapCase{Mapper: "sa1rom", Dir: "bus", Addr: 0x446000})
+	r.Sample(mapCase{Mapper: "hirom", Dir: "pak", Addr: 0xF4FFFF})
 	r.Assume("region tables of internal/refmap (DESIGN.md Appendix C) transcribe the documented maps; they self-check for overlaps and window overflow at start-up")
 	r.Assume("Pak->Bus choice of canonical bus window is not pinned by C05 (C04 constrains it)")
 }
